@@ -10,6 +10,8 @@ import Proofs.RdataLoc
 import Proofs.RdataSvcb
 import Proofs.RdataApl
 import Proofs.RdataOpt
+import Model.RdataDispatch
+import Proofs.RdataDispatch
 /-!
 # C02 — every record type's wire form round-trips and re-encodes byte-identically
 
@@ -258,6 +260,95 @@ theorem class_dirs_match :
 
 /-- … and the model has no entry for a type that the code does not implement -/
 theorem modelled_implemented : ∀ p ∈ modelledTypes, p ∈ ConstsC02.implementedTypes := by decide
+
+/-! ## dispatch as a state machine (`_rdata_classes`, `_dynamic_load_allowed`)
+
+*"for all (class, type) pairs with an implementation plus arbitrary unknown type codes"* — the codec that decodes a
+pair must not depend on what was looked up before.  `Model.RdataDispatch` follows `get_rdata_class` and
+`load_all_types` statement by statement over the dictionary and the flag; `ConstsC02.moduleFiles` (the module tree)
+and `ConstsC02.enumTypes` (the members of `RdataType` that `load_all_types` walks) are regenerated from the code. -/
+
+/-- the module tree allows history-independent dispatch: no type has both a class-specific and an ANY module, and
+`load_all_types` reaches every module (a module in a new class directory, or for a type that is no `RdataType`
+member, breaks this obligation) -/
+theorem module_tree_ok : filesOk ConstsC02.moduleFiles ConstsC02.enumTypes = true := by decide
+
+/-- after **any** history of `get_rdata_class` calls (any class, any type code, `use_generic` or not) and
+`load_all_types` calls (dynamic loading disabled or not), `get_rdata_class(c, t)` returns the class the stateless rule
+names: the class directory's module, else the one under ANY, else `GenericRdata` -/
+theorem dispatch_history_independent (ops : List DOp) (c t : Nat) :
+    (getClass ConstsC02.moduleFiles (ops.foldl (stepD ConstsC02.moduleFiles ConstsC02.enumTypes) DState.init) c t true).1
+      = some (dispatchSpec ConstsC02.moduleFiles c t) :=
+  dispatch_history _ _ module_tree_ok ops c t
+
+/-- … and that rule is the table lookup the codec theorems (`type_codec`, `every_pair_fixpoint`) are stated for -/
+theorem dispatch_spec_is_lookup (c t : Nat) :
+    dispatchSpec ConstsC02.moduleFiles c t =
+      if (lookup c t).mnemonic = "GENERIC" then Impl.generic else Impl.module (lookup c t).cls t := by
+  have hfiles : ∀ d u, hasModule ConstsC02.moduleFiles d u = true ↔ ∃ e ∈ table, e.cls = d ∧ e.typ = u := by
+    intro d u
+    constructor
+    · intro h
+      have hm : (d, u) ∈ ConstsC02.moduleFiles := by simpa [hasModule] using h
+      have := class_dirs_match.1 (d, u) hm
+      simp only [modelledTypes, List.mem_map, Prod.mk.injEq] at this
+      obtain ⟨e, he, h1, h2⟩ := this
+      exact ⟨e, he, h1, h2⟩
+    · rintro ⟨e, he, rfl, rfl⟩
+      have : (e.cls, e.typ) ∈ modelledTypes := by simp only [modelledTypes, List.mem_map]; exact ⟨e, he, rfl⟩
+      have := class_dirs_match.2 _ this
+      simpa [hasModule] using this
+  have hnog : ∀ e ∈ table, e.mnemonic ≠ "GENERIC" := by decide
+  have hfind : ∀ d, (∃ e ∈ table, e.cls = d ∧ e.typ = t) ↔ ∃ e, table.find? (fun e => e.cls == d && e.typ == t) = some e := by
+    intro d
+    constructor
+    · rintro ⟨e, he, h1, h2⟩
+      cases hf : table.find? (fun e => e.cls == d && e.typ == t) with
+      | some x => exact ⟨x, rfl⟩
+      | none => rw [List.find?_eq_none] at hf; exact absurd (by simp [h1, h2]) (hf e he)
+    · rintro ⟨e, hf⟩
+      have := List.find?_some hf
+      simp only [Bool.and_eq_true, beq_iff_eq] at this
+      exact ⟨e, List.mem_of_find?_eq_some hf, this.1, this.2⟩
+  unfold dispatchSpec lookup
+  cases h1 : table.find? (fun e => e.cls == c && e.typ == t) with
+  | some e =>
+    have hm := (hfiles c t).2 ((hfind c).2 ⟨e, h1⟩)
+    have hp := List.find?_some h1
+    simp only [Bool.and_eq_true, beq_iff_eq] at hp
+    simp [hm, hnog e (List.mem_of_find?_eq_some h1), hp.1]
+  | none =>
+    have hm : hasModule ConstsC02.moduleFiles c t = false := by
+      cases hx : hasModule ConstsC02.moduleFiles c t with
+      | false => rfl
+      | true => obtain ⟨e, he⟩ := (hfind c).1 ((hfiles c t).1 hx); rw [h1] at he; simp at he
+    have ha : anyClass = 255 := rfl
+    simp only [ha]
+    cases h2 : table.find? (fun e => e.cls == 255 && e.typ == t) with
+    | some e =>
+      have hm2 := (hfiles 255 t).2 ((hfind 255).2 ⟨e, h2⟩)
+      have hp := List.find?_some h2
+      simp only [Bool.and_eq_true, beq_iff_eq] at hp
+      simp [hm, hm2, hnog e (List.mem_of_find?_eq_some h2), hp.1]
+    | none =>
+      have hm2 : hasModule ConstsC02.moduleFiles 255 t = false := by
+        cases hx : hasModule ConstsC02.moduleFiles 255 t with
+        | false => rfl
+        | true => obtain ⟨e, he⟩ := (hfind 255).1 ((hfiles 255 t).1 hx); rw [h2] at he; simp at he
+      simp [hm, hm2, genericEntry]
+
+/-- non-vacuity, the C02-d scenario: after `load_all_types()` a lookup of CH NS still finds `dns.rdtypes.ANY.NS` -/
+example : (getClass ConstsC02.moduleFiles
+    (stepD ConstsC02.moduleFiles ConstsC02.enumTypes DState.init (.loadAll true)) 3 2 true).1 = some (.module 255 2) := by
+  rw [show stepD ConstsC02.moduleFiles ConstsC02.enumTypes DState.init (.loadAll true)
+      = [DOp.loadAll true].foldl (stepD ConstsC02.moduleFiles ConstsC02.enumTypes) DState.init from rfl,
+    dispatch_history_independent]
+  decide
+
+/-- … and the class-ANY-first order (the defect repaired by `9586c66`): IN SRV stays `dns.rdtypes.IN.SRV` -/
+example : (getClass ConstsC02.moduleFiles
+    (getClass ConstsC02.moduleFiles DState.init 255 33 true).2 1 33 true).1 = some (.module 1 33) := by decide
+
 
 /-- the constants and finite tables read from the code are the ones the schemas were written against
 (RFC 3658/4509/5933/6605 DS digest lengths, RFC 8078 CDS delete, RFC 8976 ZONEMD, 12-bit extended rcode, EUI sizes,
